@@ -7,6 +7,11 @@ Python anchors (hed/schema):
 * `hed_cache.cache_xml_versions` / `_cache_hed_version` / `_cache_specific_url` /
   `_safe_move_tmp_to_folder`                                                                          → process kind `refresh m`
 * `hed_cache_lock.CacheLock.__enter__/__exit__`, `_read_last_cached_time`, `_write_last_cached_time`  → pcs `readTs … unlock`
+* `hed_cache.get_library_data` (library_data sub-folder: own lock and timestamp, same copy path)          → a `peek` per direct
+  read of `library_data.json`, a `populate` per lock round without timestamp, a `refresh 0` per round with it,
+  in an instance of this model with `nFiles = 1`
+* `_write_last_cached_time` is two primitives (`truncTs`: `open(…, 'w')`, `writeTs`: the write); a truncated
+  timestamp file reads as 0 in `Proto.safe` (repaired `except (…)` tuple) and raises in `Proto.current`
 
 Every process is a sequence of primitive steps (one per system call on the shared cache directory; a file
 copy is `create; append-chunk*`, so a truncated copy is representable).  A schedule is any list of
